@@ -4,6 +4,8 @@ CHECK = {
     "builds": [
         {"mode": "inpkg", "pkg": "fs/ggml", "files": ["c10_decode_test.go"], "shims": _SHIM},
         {"mode": "inpkg", "pkg": "server", "files": ["c10_api_test.go"], "shims": _SHIM},
+        # the same decoder harness built with fuzz coverage instrumentation (slower, so not used for the rapid target)
+        {"mode": "inpkg", "pkg": "fs/ggml", "files": ["c10_decode_test.go"], "shims": _SHIM, "fuzz": "FuzzC10Decode"},
     ],
     "level": "exploration",
     "engine": "ggufhostile",
@@ -32,6 +34,10 @@ CHECK = {
         {"name": "TestC10API", "build": 1,
          "quick": {"cases": 3000, "shards": 2, "soft_s": 40, "gomaxprocs": 4},
          "thorough": {"cases": 40000, "shards": 8, "soft_s": 330, "gomaxprocs": 4}},
+        # native coverage-guided fuzzing of ggml.Decode over arbitrary byte strings, seeded with structured files;
+        # thorough tier only (cannot be pinned to VERIF_SEED; the saved input is the reproducible unit)
+        {"name": "FuzzC10Decode", "build": 2, "kind": "fuzz",
+         "thorough": {"fuzztime": "90s", "workers": 12, "hard_s": 600}},
     ],
     "floors": {"header_ok": 0.5, "decoded_ok_after_mutation": 0.05, "mut:set:strlen": 0.01, "mut:set:arrcount": 0.01,
                "mut:set:dims": 0.01, "mut:set:alignment": 0.005, "mut:trunc_field": 0.03, "retyped_wellknown_key": 0.1},
